@@ -5,6 +5,7 @@ import PaneModel.Model.Render
 import PaneModel.Model.Cache
 import PaneModel.Model.Order
 import PaneModel.Model.Pane
+import PaneModel.Lemmas.RoundTripDefs
 /-!
 # Line-protocol driver: one JSON scenario per input line, one JSON result per output line.
 Run with `lake env lean --run Driver.lean` (or as the compiled `driver` executable).
@@ -628,7 +629,7 @@ def runOp (sc : Scen) (j : Json) : P Json := do
   let op ← jstr (← jfield j "op")
   let E := mkExt sc.tables
   match op with
-  | "from_data" | "try_collect" | "into_data" | "roundtrip" | "render" | "build" =>
+  | "from_data" | "try_collect" | "into_data" | "roundtrip" | "render" | "build" | "convert2" =>
     let ty ← parseTy (← jfield j "ty")
     let H ← parseHandlers (jfieldD j "handlers" .null)
     match makeConverter sc.env H ty with
@@ -642,6 +643,14 @@ def runOp (sc : Scen) (j : Json) : P Json := do
       | "try_collect" =>
         pure (Json.mkObj [("try", outcomeValJson (tryC E c v)), ("collect", outcomeErrJson (colC E c v))])
       | "into_data" => pure (exceptJson (intoC E (dynOf sc E) c v))
+      | "convert2" =>
+        -- convert(x, T) on a typed value x = from_data(v, T): serialise by x's own runtime type, parse as T
+        match convertC E c v with
+        | .value x =>
+          match dynOf sc E x with
+          | .ok d => pure (Json.mkObj [("x", valJson x), ("x2", resultJson (convertC E c d)), ("rtsafe", .bool (RTSafe c))])
+          | .error e => pure (Json.mkObj [("x", valJson x), ("x2", Json.mkObj [("raises", .str (excName e.cls))]), ("rtsafe", .bool (RTSafe c))])
+        | r => pure (resultJson r)
       | "render" =>
         match convertC E c v with
         | .convertError t => pure (Json.mkObj [("text", .arr ((render E t "" false).map segJson).toArray), ("tree", errJson t)])
@@ -656,7 +665,7 @@ def runOp (sc : Scen) (j : Json) : P Json := do
             let d2 := match r2 with
               | .value x2 => exceptJson (intoC E (dynOf sc E) c x2)
               | _ => .null
-            pure (Json.mkObj [("x", valJson x), ("d", valJson d), ("x2", resultJson r2), ("d2", d2)])
+            pure (Json.mkObj [("x", valJson x), ("d", valJson d), ("x2", resultJson r2), ("d2", d2), ("rtsafe", .bool (RTSafe c))])
           | .error e => pure (Json.mkObj [("x", valJson x), ("d_raises", .str (excName e.cls))])
         | r => pure (resultJson r)
   | "process" =>
